@@ -9,7 +9,9 @@
    Proofs/Forwarder.v. *)
 From Coq Require Import List Arith Permutation.
 From GS Require Import Base.Bytes Base.LTS Model.Lexer Model.Series Model.MetricMap.
+From GS Require Import Model.Content Model.Wire Model.PbWire.
 From GS Require Import Model.Consolidator Model.Forwarder Proofs.Consolidator Proofs.Forwarder.
+From GS Require Import Model.ForwarderWire Proofs.ForwarderWire.
 From stdpp Require Import gmap.
 Import ListNotations.
 
@@ -262,3 +264,65 @@ Theorem C15_shutdown_patched_complete : forall (cm mr : nat) (dyn : list str) (u
   /\ Forall (fun r => p_phase (r_post r) = PEnd) (reqs (r_h s)).
 Proof. exact shutdown_patched_complete. Qed.
 Print Assumptions C15_shutdown_patched_complete.
+
+(* ---- C15 x C14 x C07: delivered = decoded by the ingesting server --------------------------- *)
+
+(* Model/ForwarderWire.v composes: batches -> consolidator (carrier mmap, MetricMap.merge) -> DrainEmit:
+   merge_maps, split_by_tags -> one request per non-empty part, body = Wire.post_metrics with the
+   protobuf bytes of PbWire.pb_marshal (to_pb) -> attempts per post_step -> an attempt that reaches the
+   server runs Wire.metric_handler (decompress, PbWire.pb_unmarshal, from_pb), which dispatches the
+   decoded map; WLost = an attempt that fails without a dispatch.  (The handler's scheduling, hstep, only
+   restricts when parts are posted: all orders are allowed here, a superset of its runs.)
+   abs = C07's content (counter totals, timer value multisets, sampled counts, set members per series).
+   For every run -- any interleaving of dispatchers, flushes, postings and any fault script:
+   1,2  the consolidator component is a run of Model.Consolidator (C15_flush_contains applies) and every
+        request a run of post_step (C15_retry_discipline applies);
+   3    content is conserved: batches merged = maps still in slots + parts not yet posted + parts of requests;
+   4    what the server dispatched is exactly what the requests were served;
+   and when the sampled counts of the parts are doubles (C14's hypothesis; Model/MetricMap adds them exactly):
+   5    a request that ended Sent was decoded upstream exactly once, as its own part with every
+        timestamp replaced by the server's receive time (C14), and a request that is not Sent (in
+        flight, Dropped, Invalid) was decoded never;
+   6    the content decoded upstream = the content of the parts whose request ended Sent;
+   7    at rest: content of batches merged = content decoded upstream + content of the parts of
+        Dropped / Invalid requests (decoded nowhere) + content still in the consolidator's slots. *)
+Theorem C15_delivered_content :
+  forall (compress : codec -> Z -> str -> str) (decompress : codec -> str -> option str),
+    (forall c level raw, (0 <= level <= 9)%Z -> decompress c (compress c level raw) = Some raw) ->
+    forall (flag : bool) (ctype : str) (level : Z) (cfg : fwd_cfg),
+      new_forwarder flag ctype level = Some cfg ->
+      forall (dyn : list str) (k : nat) (ls : list wlabel) (s : wstate),
+        run (wstep compress decompress cfg dyn k false) (winit k) ls = Some s ->
+        (exists cls, run (cstep k) (cinit k) cls = Some (w_cons s))
+        /\ Forall (fun r => exists pls, run (post_step false) pinit pls = Some (q_post r)) (w_reqs s)
+        /\ cmap_sum (abs <$> w_put s) =
+             cmap_sum (abs <$> resident_maps s) ⊕ₘ (cmap_sum (abs <$> job_parts s) ⊕ₘ cmap_sum (abs <$> req_parts s))
+        /\ Permutation (w_dispatched s) (concat (map q_served (w_reqs s)))
+        /\ ((forall r, In r (w_reqs s) -> samp_ok (q_part r)) ->
+              Forall (fun r => (p_status (q_post r) = SSent -> exists now, q_served r = [retime now (q_part r)])
+                               /\ (p_status (q_post r) <> SSent -> q_served r = [])) (w_reqs s)
+              /\ cmap_sum (abs <$> w_dispatched s) = cmap_sum (abs <$> parts_with is_sent s)
+              /\ (w_at_rest s = true ->
+                    cmap_sum (abs <$> w_put s) =
+                    cmap_sum (abs <$> w_dispatched s)
+                    ⊕ₘ (cmap_sum (abs <$> parts_with (fun st => negb (is_sent st)) s)
+                        ⊕ₘ cmap_sum (abs <$> resident_maps s)))).
+Proof. exact delivered_content. Qed.
+Print Assumptions C15_delivered_content.
+
+(* The boundary of "exactly once upstream": a response that is lost after MetricHandler dispatched
+   (WRespLost, excluded above).  The forwarder cannot tell it from any other failure and retries;
+   the request ends Sent once (created 1, sent 1, retried 1) and the server has dispatched the batch
+   (a counter worth 7) twice, at receive times 5 and 6.  The protocol has no request identity. *)
+Theorem C15_delivered_twice_on_lost_response :
+  match run (wstep id_compress id_decompress (MkCfg false CtZlib 0) [] 1 true) (winit 1) rl_run with
+  | Some s =>
+      map (fun r => (p_status (q_post r), p_ctr (q_post r))) (w_reqs s) = [(SSent, Ctr 1 1 1 0 0)]
+      /\ map rl_counter_of (w_put s) = [Some 7%Z]
+      /\ map rl_counter_of (w_dispatched s) = [Some 7%Z; Some 7%Z]
+      /\ map (fun m => c_ts <$> (MetricMap.counters m !! rl_key)) (w_dispatched s) = [Some 5%Z; Some 6%Z]
+  | None => False
+  end
+  /\ run (wstep id_compress id_decompress (MkCfg false CtZlib 0) [] 1 false) (winit 1) rl_run = None.
+Proof. exact response_loss_duplicates. Qed.
+Print Assumptions C15_delivered_twice_on_lost_response.
